@@ -3,7 +3,8 @@
 Decided: the two Mask arms of generate / update in Distribution (arm polarity decided by dependence: the arm bound to flag=True uses the constraint value and its
 log density, the other arm samples / keeps the old value with weight 0 / re-scored), the backward constraint old_choices.mask(flag); ExactDensity.assess unwraps a
 masked value; Choice.build's concrete-flag table (False -> empty, True -> unwrapped, traced -> kept); Indexed.get_inner_map propagates the index match as a mask
-(scalar and array addresses); Choice.filter(flag) masks the value; ChoiceMap.mask(flag) == filter(flag).
+(scalar and array addresses); Choice.filter(flag) masks the value; ChoiceMap.mask(flag) == filter(flag); every container class's filter / get_inner_map
+pushes the flag / lookup into every child (CHM-RECURSE, shared with C17).
 Not decided: elementwise behaviour of vectorised masks inside JAX (vmap of the above).
 """
 from ..gfi import distribution, vmap
@@ -72,4 +73,23 @@ def run(chk, prog):
     n, obs = run_for(chk, prog, "C35", [distribution.analyse, vmap.analyse])
     chk.floor("obligations tagged C35", n, 12)
     chm_mask_rules(chk, prog)
+    # ChoiceMap.mask(flag) is filter(flag): the flag reaches a Choice leaf only if EVERY container class pushes it into every child (C17's CHM-RECURSE rules
+    # for filter / get_inner_map / get_value); a container that skips a child leaves that child's constraints unconditionally enforced.
+    from ..report import Check
+    from . import C17
+
+    tmp = Check("C17", chk.tier, chk.seed, write_evidence=False)
+    C17.run(tmp, prog)
+    viol = {(v["rule"], v["instance"]): v for v in tmp.violations}
+    n17 = 0
+    for o in tmp.obligations:
+        if o["rule"] != "CHM-RECURSE":
+            continue
+        n17 += 1
+        v = viol.get((o["rule"], o["instance"]))
+        if v:
+            chk.violation(v["rule"], v["instance"], v["construct"], v["derived"], v["expected"], v["where"])
+        else:
+            chk.ok(o["rule"], o["instance"], o["fact"])
+    chk.floor("container recursion obligations (from C17)", n17, 8)
     chk.explanation = "arm polarity and weights of the masked-constraint arms of generate / update, mask propagation through Choice / Indexed, concrete-flag tables"
